@@ -72,30 +72,41 @@ func runC12(a *A) {
 			t := newTB(rv)
 			t.names[cd.valFn.Params[0]] = "data"
 			t.names[cd.valFn.Params[1]] = "pos"
-			// reachable formatting calls whose constant format starts with "."
+			// fraction writes: printf items (format starts with ".") among the writes of the returned text buffer, helpers
+			// inlined; plus Sprintf calls in the decoder itself
 			var fmts, args []string
 			var pos string
+			seenBuf := map[ssa.Value]bool{}
+			for _, ret := range successReturns(rv, 2) {
+				c, ok := ret.Results[0].(*ssa.Call)
+				if !ok || !staticCalleeIs(c.Common(), "(*bytes.Buffer).Bytes") {
+					continue
+				}
+				buf := strip(c.Common().Args[0])
+				if seenBuf[buf] {
+					continue
+				}
+				seenBuf[buf] = true
+				_, items := bufferWriteList(t, rv, buf, 0)
+				for _, it := range items {
+					if it.Kind == "printf" && strings.HasPrefix(it.Format, ".") {
+						fmts = append(fmts, it.Format)
+						args = append(args, strings.Join(it.Args, ","))
+						pos = w.posOf(it.In)
+					}
+				}
+			}
 			instrs(rv.Fn, func(in ssa.Instruction) {
 				c, ok := in.(*ssa.Call)
-				if !ok || !rv.Exec[c.Block()] {
+				if !ok || !rv.Exec[c.Block()] || !staticCalleeIs(c.Common(), "fmt.Sprintf") {
 					return
 				}
-				from := -1
-				switch {
-				case staticCalleeIs(c.Common(), "fmt.Fprintf"):
-					from = 1
-				case staticCalleeIs(c.Common(), "fmt.Sprintf"):
-					from = 0
-				}
-				if from < 0 {
-					return
-				}
-				f, _ := constString(c.Common().Args[from])
+				f, _ := constString(c.Common().Args[0])
 				if !strings.HasPrefix(f, ".") {
 					return
 				}
 				fmts = append(fmts, f)
-				parts := strings.SplitN(fmtArgs(t, rv, c.Common().Args, from, 0), ",", 2)
+				parts := strings.SplitN(fmtArgs(t, rv, c.Common().Args, 0, 0), ",", 2)
 				if len(parts) == 2 {
 					args = append(args, parts[1])
 				}
